@@ -170,6 +170,70 @@ func byteStrings(r *rand.Rand) []c09Str {
 	return out
 }
 
+// scaledSentences are VALID but large sentences (and the values they need): IN lists of 33-100 operands whose
+// members have other types than the subject, chains of 100 conjuncts, 100 update actions, sets and lists of 100
+// members, 1 KB operands. They must evaluate or be refused with an error like any other sentence - size thresholds
+// inside the front end must not turn into runtime faults.
+func scaledSentences() (conds []c09Str, cvals val.Item, upds []c09Str, uvals val.Item) {
+	cvals, uvals = val.Item{}, val.Item{}
+	odd := []val.V{val.Str("x"), val.Num("7"), val.Bin("x"), val.Bool(true), val.Null(), val.SS("x"), val.List(val.Str("x")), val.Map(map[string]val.V{"x": val.Str("y")}), val.NS("2")}
+	for i := 0; i < 100; i++ {
+		cvals[fmt.Sprintf(":m%d", i)] = odd[i%len(odd)]
+		cvals[fmt.Sprintf(":s%d", i)] = val.Str(fmt.Sprintf("s%d", i))
+		cvals[fmt.Sprintf(":n%d", i)] = val.Num(fmt.Sprint(i + 10))
+	}
+	cvals[":long"] = val.Str(strings.Repeat("x", 1024))
+	cvals[":v1"] = val.Str("x")
+	list := func(prefix string, n int) string {
+		parts := []string{}
+		for i := 0; i < n; i++ {
+			parts = append(parts, fmt.Sprintf(":%s%d", prefix, i))
+		}
+		return strings.Join(parts, ", ")
+	}
+	for _, n := range []int{17, 33, 34, 64, 65, 100} {
+		for _, subj := range []string{"a", "b", "c", "d", "e", "f", "nope", "c[1]", "d.x", "size(a)"} {
+			for _, pre := range []string{"m", "s", "n"} {
+				conds = append(conds, c09Str{fmt.Sprintf("%s IN (%s)", subj, list(pre, n)), "scaled-in"})
+			}
+			conds = append(conds, c09Str{fmt.Sprintf("%s IN (%s, nope, c, b)", subj, list("m", n-3)), "scaled-in"})
+			conds = append(conds, c09Str{fmt.Sprintf("NOT %s IN (%s)", subj, list("m", n)), "scaled-in"})
+		}
+		parts := []string{}
+		for i := 0; i < n; i++ {
+			parts = append(parts, fmt.Sprintf("%s <> :m%d", []string{"a", "b", "c", "nope", "d.x"}[i%5], i))
+		}
+		conds = append(conds, c09Str{strings.Join(parts, " AND "), "scaled-chain"}, c09Str{strings.Join(parts, " OR "), "scaled-chain"})
+	}
+	for _, fn := range []string{"begins_with(a, :long)", "contains(a, :long)", "a = :long", "a < :long", "a BETWEEN :v1 AND :long", "contains(:long, a)", "begins_with(:long, :v1)"} {
+		conds = append(conds, c09Str{fn, "scaled-operand"})
+	}
+	big := []string{}
+	bigL := []val.V{}
+	for i := 0; i < 100; i++ {
+		big = append(big, fmt.Sprintf("member%d", i))
+		bigL = append(bigL, val.Str(fmt.Sprintf("elem%d", i)))
+		uvals[fmt.Sprintf(":u%d", i)] = odd[i%len(odd)]
+	}
+	uvals[":bigset"] = val.V{K: val.KSS, Set: big}
+	uvals[":biglist"] = val.V{K: val.KL, L: bigL}
+	uvals[":one"] = val.Num("1")
+	for _, n := range []int{17, 33, 65, 100} {
+		sets, rems, adds := []string{}, []string{}, []string{}
+		for i := 0; i < n; i++ {
+			sets = append(sets, fmt.Sprintf("attr%d = :u%d", i, i))
+			rems = append(rems, fmt.Sprintf("l[%d]", n-1-i))
+			adds = append(adds, fmt.Sprintf("cnt%d :one", i))
+		}
+		upds = append(upds, c09Str{"SET " + strings.Join(sets, ", "), "scaled-update"}, c09Str{"REMOVE " + strings.Join(rems, ", "), "scaled-update"}, c09Str{"ADD " + strings.Join(adds, ", "), "scaled-update"},
+			c09Str{"SET " + strings.Join(sets, ", ") + " REMOVE " + strings.Join(rems[:5], ", ") + " ADD " + strings.Join(adds[:5], ", "), "scaled-update"})
+	}
+	upds = append(upds, c09Str{"ADD ss :bigset", "scaled-update"}, c09Str{"DELETE ss :bigset", "scaled-update"}, c09Str{"SET l = list_append(l, :biglist)", "scaled-update"},
+		c09Str{"SET l = list_append(:biglist, l)", "scaled-update"}, c09Str{"SET nu = :biglist", "scaled-update"}, c09Str{"SET l[150] = :one", "scaled-update"}, c09Str{"REMOVE l[150]", "scaled-update"},
+		c09Str{"SET nu = if_not_exists(nope, :biglist)", "scaled-update"})
+	return
+}
+
 func (p *c09) NumCases(tier string) int {
 	if tier == "thorough" {
 		return 8000
@@ -381,6 +445,17 @@ func (p *c09) RunCase(ctx *runner.Ctx) runner.CaseResult {
 		for i, bs := range byteStrings(r) {
 			p.checkCond(x, bs, nil, values, i%17 == 0, ctx)
 			p.checkUpdate(x, bs, nil, values, i%17 == 0, ctx)
+		}
+		if ctx.Case < 40 {
+			conds, cvals, upds, uvals := scaledSentences()
+			for i, c := range conds {
+				_, v2 := usedPlaceholders(c.s, nil, cvals)
+				p.checkCond(x, c, nil, v2, i%29 == ctx.Case/4, ctx)
+			}
+			for i, u := range upds {
+				_, v2 := usedPlaceholders(u.s, nil, uvals)
+				p.checkUpdate(x, u, nil, v2, i%5 == (ctx.Case/4)%5, ctx)
+			}
 		}
 		hostile := []map[string]string{{"#a": "#a"}, {"#a": "#b", "#b": "#a"}, {"#a": "a.b"}, {"#a": "d.x"}, {"#a": ""}, {"#a": "#a.#a"}, {"#a": "a", "#b": "#a"}}
 		for _, names := range hostile {
